@@ -888,6 +888,7 @@ class Engine:
                     self.stats['paths'] += 1
                     if getattr(fr, 'top', False):
                         self.last_ext = {int(k[4:]): v for k, v in fr.loc.items() if k.startswith('_ext')}
+                        self.last_locals = fr.loc      # final locals of the top-level frame on this path (read-only use by obligations, e.g. a loop accumulator)
                     yield (path, fr.loc.get('_0', Unit())); return
                 if st == 'unreachable': return
                 if st.startswith('resume') or st.startswith('abort'): return
